@@ -231,18 +231,7 @@ func ruleR16_1(p *Program, r *Report) {
 		r.Undecided("R16.1", key, p.Pos(fn.Pos()), "Close calls the compressor's Close", "call not found")
 		return
 	}
-	carriers := p.errorCarriers(fn, closeCall, tr)
-	failureEdge := func(from, to *ssa.BasicBlock) bool {
-		br, ok := edgeCond(from, to)
-		if !ok {
-			return false
-		}
-		f, ok := branchFact(br)
-		if !ok || f.Y == nil {
-			return false
-		}
-		return f.Op == token.NEQ && ((carriers[f.X] && isNil(f.Y)) || (carriers[f.Y] && isNil(f.X)))
-	}
+	t := NewErrTrack(p, fn, closeCall, KindSuccess, tr)
 	marker := func(in ssa.Instruction) bool {
 		if !isStickyStore(in, recv, tr.Sticky) {
 			return false
@@ -250,8 +239,7 @@ func ruleR16_1(p *Program, r *Report) {
 		g := globalLoad(in.(*ssa.Store).Val)
 		return g != nil && p.initOnlyNonNil(g)
 	}
-	found, hit, path := PathQuery{Start: closeCall, Target: func(in ssa.Instruction) bool { _, ok := in.(*ssa.Return); return ok },
-		Barrier: marker, EdgeOK: func(a, b *ssa.BasicBlock) bool { return !failureEdge(a, b) }}.Find(fn)
+	found, hit, path := t.Find(func(in ssa.Instruction) bool { _, ok := in.(*ssa.Return); return ok }, marker)
 	if found {
 		r.Fail("R16.1", key, p.InstrPos(closeCall), "every success path of Close stores a non-nil closed marker in ."+tr.Sticky, "return at "+p.InstrPos(hit)+" reachable without the marker via blocks "+fmtInts(path)+": a later Write/Flush/Close would run the compressor again")
 	} else {
